@@ -27,7 +27,7 @@ EXPLANATION = (
 )
 
 MANIFEST = {
-    "technique": "static analysis: Cython-subset front-end + structural isomorphism of two recursive subdivisions on canonical terms; call-contract comparison",
+    "technique": "static analysis: Cython-subset front-end + structural isomorphism of two recursive subdivisions on canonical terms (helpers inlined, table loops unrolled); call-contract comparison (corners identity); memo-key dependence analysis",
     "text": "Decides that the compiled 256x256 grid recursion and the Python tile subdivision are the same recursion (quadrant for quadrant, both diagonal orientations) and that the public entry point feeds it the tile's own corners; geometry (pixel inside tile) is not decided.",
     "note": "Trusted: the prebuilt extension was compiled from _libtoasty.pyx (cannot be rebuilt offline); C arithmetic of the midpoint. Not decided: every pixel centre lies inside its tile.",
 }
@@ -38,7 +38,7 @@ def run(run):
     run.assumptions += ["the prebuilt _libtoasty*.so was built from toasty/_libtoasty.pyx (no Cython in the sandbox)",
                         "_mid / mid compute the same symmetric great-circle midpoint"]
     run.undecided_clauses += ["every pixel centre lies inside its tile and within the corner latitude range (spherical geometry)"]
-    for r, n in (("C05.R1", 6), ("C05.R2", 2), ("C05.R3", 1), ("C05.R4", 1)):
+    for r, n in (("C05.R1", 6), ("C05.R2", 2), ("C05.R3", 1), ("C05.R4", 1), ("C05.R5", 1)):
         run.floor(r, n)
     project = run.project
     # ---- R1
